@@ -58,38 +58,44 @@ let check_tokens (cfg : econfig) (ops : eop list) (tr : tok list) : unit =
      | OCrash i -> reset_inst (zi i)
      | OStep (i, _, pl) when List.exists (fun (_, f) -> f = FCrash) pl -> reset_inst (zi i)
      | _ -> ());
-    (* ---------------- token-local clauses ---------------- *)
+    (* ---------------- token-local clauses ----------------
+       The verdict is the EXTRACTED Coq monitor mon_<ID> (coq/model/Monitors.v), proved of every token of every model
+       history (coq/proofs/MonitorProofs.v monitors_hold); the hand-written clauses below only word the reason. *)
+    let viol t = function
+      | "C02" -> not (mon_C02 g t) | "C03" -> not (mon_C03 g t) | "C04" -> not (mon_C04 g t) | "C08" -> not (mon_C08 g t)
+      | "C09" -> not (mon_C09 g t) | "C15" -> not (mon_C15 g t) | "C16" -> not (mon_C16 g t) | _ -> false in
+    let on_tok t p = on p && viol t p in
     List.iter (fun t ->
-      match t with
+      (match t with
       | TStore (prev, r, a) ->
         (match prev with
          | None ->
-           if on "C16" && (zi r.r_ver <> 1) then bad "C16" "first write of run %d has version %d" (ni r.r_run) (zi r.r_ver);
-           if on "C09" && r.r_state <> RSInitiated then bad "C09" "new run %d is not Initiated" (ni r.r_run);
-           if on "C02" && not (is_valid g r.r_status) then bad "C02" "run %d starts at undeclared status %d" (ni r.r_run) (zi r.r_status)
+           if on_tok t "C16" && (zi r.r_ver <> 1) then bad "C16" "first write of run %d has version %d" (ni r.r_run) (zi r.r_ver);
+           if on_tok t "C09" && r.r_state <> RSInitiated then bad "C09" "new run %d is not Initiated" (ni r.r_run);
+           if on_tok t "C02" && not (is_valid g r.r_status) then bad "C02" "run %d starts at undeclared status %d" (ni r.r_run) (zi r.r_status)
          | Some p ->
-           if on "C16" && zi r.r_ver <> zi p.r_ver + 1 then bad "C16" "run %d: version %d written over version %d" (ni r.r_run) (zi r.r_ver) (zi p.r_ver);
-           if on "C16" && (r.r_created <> p.r_created) then bad "C16" "run %d: creation time changed" (ni r.r_run);
-           if on "C16" && zi r.r_updated < zi p.r_updated then bad "C16" "run %d: update time went backwards" (ni r.r_run);
-           if on "C03" && rs_finished p.r_state && not (rs_finished r.r_state) then
+           if on_tok t "C16" && zi r.r_ver <> zi p.r_ver + 1 then bad "C16" "run %d: version %d written over version %d" (ni r.r_run) (zi r.r_ver) (zi p.r_ver);
+           if on_tok t "C16" && (r.r_created <> p.r_created) then bad "C16" "run %d: creation time changed" (ni r.r_run);
+           if on_tok t "C16" && zi r.r_updated < zi p.r_updated then bad "C16" "run %d: update time went backwards" (ni r.r_run);
+           if on_tok t "C03" && rs_finished p.r_state && not (rs_finished r.r_state) then
              bad "C03" "run %d: finished state %d overwritten by %d" (ni r.r_run) (zi (rs_code p.r_state)) (zi (rs_code r.r_state));
-           if on "C03" && not (lc p.r_state r.r_state || p.r_state = r.r_state) then
+           if on_tok t "C03" && not (lc p.r_state r.r_state || p.r_state = r.r_state) then
              bad "C03" "run %d: run state %d -> %d is not an edge of the lifecycle" (ni r.r_run) (zi (rs_code p.r_state)) (zi (rs_code r.r_state));
-           if on "C02" && r.r_status <> p.r_status && not (validate_transition g p.r_status r.r_status) then
+           if on_tok t "C02" && r.r_status <> p.r_status && not (validate_transition g p.r_status r.r_status) then
              bad "C02" "run %d: status %d -> %d is not a declared transition" (ni r.r_run) (zi p.r_status) (zi r.r_status);
-           if on "C08" && rs_stopped p.r_state && (r.r_status <> p.r_status || (r.r_obj <> p.r_obj && r.r_state <> RSDataDeleted)) then
+           if on_tok t "C08" && rs_stopped p.r_state && (r.r_status <> p.r_status || (r.r_obj <> p.r_obj && r.r_state <> RSDataDeleted)) then
              bad "C08" "run %d: status/object changed while %d" (ni r.r_run) (zi (rs_code p.r_state));
-           if on "C16" && r.r_obj <> p.r_obj && r.r_state <> RSDataDeleted && not (r.r_state = RSRunning || r.r_state = RSCompleted) then
+           if on_tok t "C16" && r.r_obj <> p.r_obj && r.r_state <> RSDataDeleted && not (r.r_state = RSRunning || r.r_state = RSCompleted) then
              bad "C16" "run %d: object changed by a run-state write" (ni r.r_run);
-           if on "C15" && r.r_state = RSDataDeleted && (r.r_status <> p.r_status || r.r_created <> p.r_created) then
+           if on_tok t "C15" && r.r_state = RSDataDeleted && (r.r_status <> p.r_status || r.r_created <> p.r_created) then
              bad "C15" "run %d: data deletion changed status or creation time" (ni r.r_run);
-           if on "C15" && r.r_state = RSDataDeleted && p.r_state <> RSReqDataDeleted && p.r_state <> RSDataDeleted then
+           if on_tok t "C15" && r.r_state = RSDataDeleted && p.r_state <> RSReqDataDeleted && p.r_state <> RSDataDeleted then
              bad "C15" "run %d: scrubbed without a request (state %d)" (ni r.r_run) (zi (rs_code p.r_state));
-           if on "C15" && r.r_state = RSReqDataDeleted && not (List.mem p.r_state [RSCompleted; RSCancelled; RSDataDeleted]) then
+           if on_tok t "C15" && r.r_state = RSReqDataDeleted && not (List.mem p.r_state [RSCompleted; RSCancelled; RSDataDeleted]) then
              bad "C15" "run %d: DeleteData accepted in state %d" (ni r.r_run) (zi (rs_code p.r_state)));
-        if on "C16" && r.r_desc <> r.r_status then bad "C16" "run %d: status description describes %d but status is %d" (ni r.r_run) (zi r.r_desc) (zi r.r_status);
-        if on "C03" && r.r_state = RSCompleted && not (is_terminal g r.r_status) then bad "C03" "run %d Completed at non-terminal status %d" (ni r.r_run) (zi r.r_status);
-        if on "C03" && (r.r_state = RSRunning) && is_terminal g r.r_status && (match prev with Some p -> p.r_status <> r.r_status | None -> false) then
+        if on_tok t "C16" && r.r_desc <> r.r_status then bad "C16" "run %d: status description describes %d but status is %d" (ni r.r_run) (zi r.r_desc) (zi r.r_status);
+        if on_tok t "C03" && r.r_state = RSCompleted && not (is_terminal g r.r_status) then bad "C03" "run %d Completed at non-terminal status %d" (ni r.r_run) (zi r.r_status);
+        if on_tok t "C03" && (r.r_state = RSRunning) && is_terminal g r.r_status && (match prev with Some p -> p.r_status <> r.r_status | None -> false) then
           bad "C03" "run %d moved to terminal status %d without becoming Completed" (ni r.r_run) (zi r.r_status);
         if eff a then begin
           writes := !writes @ [r];
@@ -99,12 +105,12 @@ let check_tokens (cfg : econfig) (ops : eop list) (tr : tok list) : unit =
       | TUser (u, view, pers, unow, planned) ->
         if is_step_fn u then begin
           (match pers with
-           | None -> if on "C08" then bad "C08" "function invoked for a run that is not stored"
+           | None -> if on_tok t "C08" then bad "C08" "function invoked for a run that is not stored"
            | Some p ->
-             if on "C08" && not (List.mem p.r_state rs_ok_states) then
+             if on_tok t "C08" && not (List.mem p.r_state rs_ok_states) then
                bad "C08" "function %d invoked for run %d while its persisted state is %d" (zi (ufun_code u)) (ni p.r_run) (zi (rs_code p.r_state));
-             if on "C16" && view.r_obj <> p.r_obj then bad "C16" "function %d saw an object different from the persisted one (run %d)" (zi (ufun_code u)) (ni p.r_run);
-             if on "C04" && view.r_ver <> p.r_ver then bad "C04" "function invoked on version %d but the persisted version is %d" (zi view.r_ver) (zi p.r_ver))
+             if on_tok t "C16" && view.r_obj <> p.r_obj then bad "C16" "function %d saw an object different from the persisted one (run %d)" (zi (ufun_code u)) (ni p.r_run);
+             if on_tok t "C04" && view.r_ver <> p.r_ver then bad "C04" "function invoked on version %d but the persisted version is %d" (zi view.r_ver) (zi p.r_ver))
         end;
         (match u with
          | UFTimeout (s, _) ->
@@ -142,7 +148,12 @@ let check_tokens (cfg : econfig) (ops : eop list) (tr : tok list) : unit =
             if not (List.exists (fun o -> e.o_topic = o.o_topic && e.o_run = o.o_run && e.o_ver = o.o_ver && e.o_state = o.o_state && e.o_type = o.o_type) !sent) then
               bad "C05" "outbox entry %d deleted before its event was accepted by the streamer" (ni id)
         end
-      | _ -> ()) seg;
+      | _ -> ());
+      List.iter (fun p -> if on_tok t p then bad p "token %s is rejected by the extracted monitor mon_%s (coq/model/Monitors.v)" (match t with
+          | TStore (_, r, _) -> Printf.sprintf "[write of run %d: state %d status %d version %d]" (ni r.r_run) (zi (rs_code r.r_state)) (zi r.r_status) (zi r.r_ver)
+          | TUser (u, v, _, _, _) -> Printf.sprintf "[invocation of function %d on run %d]" (zi (ufun_code u)) (ni v.r_run)
+          | _ -> "[token]") p)
+        ["C02"; "C03"; "C04"; "C08"; "C09"; "C15"; "C16"]) seg;
     (* ---------------- per-operation clauses ---------------- *)
     (match unit_of_op with
      | Some (inst, EOutbox) ->
